@@ -68,12 +68,13 @@ ASSUMED = set(SIMD_IN_PLACE + SIMD_XOF + SIMD_XOF_MANY + SIMD_HASH_MANY) | {"str
 
 def _u(func, props, doc, file="blake3.c", replace=(), inlined=(), loops=(), unwind=1, bounded=(),
        tier="quick", config="portable", rec=False, defs=(), timeout=300, mem_gb=16, harness=None,
-       extra_trust=(), level="proof", extra_cbmc=(), enforce=True):
+       extra_trust=(), level="proof", extra_cbmc=(), enforce=True, pre_unwind=(), solver=None):
     return dict(func=func, props=list(props), doc=doc, file=file, replace=list(replace),
                 inlined=list(inlined), loops=list(loops), unwind=unwind, bounded=list(bounded),
                 tier=tier, config=config, rec=rec, defs=list(defs), timeout=timeout, mem_gb=mem_gb,
                 harness=harness, extra_trust=list(extra_trust), level=level,
-                extra_cbmc=list(extra_cbmc), enforce=enforce)
+                extra_cbmc=list(extra_cbmc), enforce=enforce, pre_unwind=list(pre_unwind),
+                solver=solver)
 
 
 UNITS = {}
@@ -374,7 +375,7 @@ def build_unit(name, scratch, repo=None):
     return main_c, info
 
 
-def _commands(name, main_c, scratch, repo, trace=True, sanity=False):
+def _commands(name, main_c, scratch, repo, trace=True, sanity=False, unwindset=()):
     u = UNITS[name]
     defs = (PORTABLE_DEFS if u["config"] == "portable" else []) + u["defs"]
     if sanity:
@@ -389,6 +390,9 @@ def _commands(name, main_c, scratch, repo, trace=True, sanity=False):
     pre = ["goto-instrument"]
     for r in u["replace"]:
         pre += ["--remove-function-body", r]
+    if unwindset:
+        # a loop nested in a loop that has a loop contract must be unwound before DFCC runs
+        pre += ["--unwindset", ",".join("%s:%d" % x for x in unwindset), "--unwinding-assertions"]
     pre += ["--drop-unused-functions", g1, g0]
     gi = ["goto-instrument", "--dfcc", "harness"]
     if u["enforce"]:
@@ -401,12 +405,51 @@ def _commands(name, main_c, scratch, repo, trace=True, sanity=False):
     # MIN_UNWIND: the DFCC library iterates over the targets of a replaced callee's assigns
     # clause (at most 7 targets in contracts.h); its loops are covered by unwinding assertions too
     cb = ["cbmc", g2] + CHECK_FLAGS + ["--unwind", str(max(u["unwind"], MIN_UNWIND)), "--unwinding-assertions"]
-    cb += ["--sat-solver", u.get("solver") or SOLVER]
+    if u["solver"] != "external":
+        cb += ["--sat-solver", u["solver"] or SOLVER]
+    if not u["enforce"]:
+        cb[1] = g1  # plain assertion harness: no contract instrumentation
     cb += u["extra_cbmc"]
     if trace:
         cb += ["--trace"]
     cb += ["--json-ui"]
     return cc, pre, gi, cb
+
+
+def loop_line(text, func, idx):
+    """1-based line of the header of the idx-th loop of func."""
+    loc = find_function(text, func)
+    if loc is None:
+        raise LookupError("function %s not found" % func)
+    _, b0, b1 = loc
+    masked = _mask(text)
+    heads = []
+    for m in re.finditer(r"\b(while|for)\s*\(", masked[b0:b1]):
+        close = _match(masked, b0 + m.end() - 1, "(", ")")
+        k = close + 1
+        while k < b1 and masked[k] in " \t\r\n":
+            k += 1
+        if m.group(1) == "while" and masked[k] == ";":
+            continue
+        heads.append(text.count("\n", 0, b0 + m.start()) + 1)
+    if idx >= len(heads):
+        raise LookupError("loop %d of %s not found" % (idx, func))
+    return heads[idx]
+
+
+def _loop_ids(name, scratch, repo):
+    """Resolve the unit's pre_unwind entries (file, function, k-th loop, bound) to cbmc loop ids."""
+    u = UNITS[name]
+    rc, out, err, _ = common.run(["goto-instrument", "--show-loops", os.path.join(scratch, "h.goto")], timeout=120)
+    loops = re.findall(r"Loop (\S+):\s*\n\s*file (\S+) line (\d+) function (\S+)", out)
+    res = []
+    for (f, fn, idx, bound) in u["pre_unwind"]:
+        line = loop_line(common.read(_src_path(repo, f)), fn, idx)
+        ids = [lid for (lid, lf, ll, lfn) in loops if lfn == fn and int(ll) == line and os.path.basename(lf) == f]
+        if len(ids) != 1:
+            raise LookupError("loop %d of %s (line %d) not identified in the goto program" % (idx, fn, line))
+        res.append((ids[0], bound))
+    return res
 
 
 def _parse_json(out):
@@ -464,11 +507,24 @@ def run_unit(name, tier="quick", keep=False, sanity=False):
         if rc != 0:
             res["undecided_reason"] = "goto-cc failed (rc %s): %s" % (rc, (err + out)[-600:])
             return res
-        rc, out, err, _ = common.run(pre, timeout=120, mem_gb=u["mem_gb"])
-        if rc != 0:
-            res["undecided_reason"] = "goto-instrument pre-pass failed (rc %s): %s" % (rc, (out + err)[-800:])
-            return res
-        rc, out, err, _ = common.run(gi, timeout=min(600, u["timeout"]), mem_gb=u["mem_gb"])
+        if not u["enforce"]:
+            cmds = [cc, cb]
+            res["cmd"] = " && ".join(_fmt(c) for c in cmds)
+        if u["pre_unwind"]:
+            try:
+                unwindset = _loop_ids(name, scratch, repo)
+            except LookupError as e:
+                res["undecided_reason"] = "lost anchor: %s" % e
+                return res
+            cc, pre, gi, cb = _commands(name, main_c, scratch, repo, sanity=sanity, unwindset=unwindset)
+            cmds = [cc, pre, gi, cb]
+            res["cmd"] = " && ".join(_fmt(c) for c in cmds)
+        if u["enforce"]:
+            rc, out, err, _ = common.run(pre, timeout=120, mem_gb=u["mem_gb"])
+            if rc != 0:
+                res["undecided_reason"] = "goto-instrument pre-pass failed (rc %s): %s" % (rc, (out + err)[-800:])
+                return res
+            rc, out, err, _ = common.run(gi, timeout=min(600, u["timeout"]), mem_gb=u["mem_gb"])
         if rc != 0:
             res["undecided_reason"] = "goto-instrument --dfcc failed (rc %s): %s" % (rc, (out + err)[-800:])
             return res
@@ -610,6 +666,23 @@ def _register():
                  "pass; blocks is unbounded"],
         doc="<= 16 rows of 64*blocks bytes; writes exactly out[0..32*num_inputs)")
 
+    U["compress_spec_vector"] = _u(
+        "blake3_compress_xof_portable", ["C06"], file=P, harness="compress_spec_vector", enforce=False, unwind=17,
+        bounded=["unwind 17: only the constant-trip-count loops (<= 16) of the spec and of the harness; the C kernel is loop-free"],
+        inlined=["compress_pre", "round_fn", "g", "rotr32", "load32", "store32"],
+        doc="concrete: the paper-style spec (verif/cbmc/compress_spec.h) and the C portable kernel both reproduce "
+            "the official BLAKE3(\"\") vector")
+    U["compress_spec_equiv"] = _u(
+        "blake3_compress_in_place_portable", ["C06"], file=P, harness="compress_spec_equiv", enforce=False, unwind=17,
+        bounded=["unwind 17: only the constant-trip-count loops (<= 16) of the spec and of the harness; the C kernel is loop-free"],
+        tier="thorough", timeout=2400, mem_gb=32, solver="external", extra_cbmc=["--external-sat-solver", "kissat"],
+        inlined=["blake3_compress_xof_portable", "compress_pre", "round_fn", "g", "rotr32", "load32", "store32"],
+        extra_trust=["verif/cbmc/compress_spec.h is a faithful transcription of the BLAKE3 paper's compression "
+                     "function (checked on the official empty-input vector by unit compress_spec_vector)",
+                     "kissat (external SAT solver) answers UNSAT correctly"],
+        doc="blake3_compress_in_place_portable and blake3_compress_xof_portable == the paper's compression function "
+            "for ALL cv, block, block_len, counter, flags (kissat, ~15 min)")
+
     # ---- blake3_dispatch.c: full x86 dispatch, SIMD kernels = assumed frame contracts ---------
     U["get_cpu_features"] = _u(
         "get_cpu_features", ["C18", "C07"], file=D, config="dispatch",
@@ -735,7 +808,11 @@ def _register():
                  "compress_subtree_to_parent_node", "hasher_merge_cv_stack"],
         inlined=["chunk_state_len", "chunk_state_output", "chunk_state_reset", "chunk_state_init", "make_output",
                  "chunk_state_maybe_start_flag"],
-        loops=[("blake3.c", "blake3_hasher_update_base", 0), ("blake3.c", "blake3_hasher_update_base", 1)],
+        loops=[("blake3.c", "blake3_hasher_update_base", 0)],
+        pre_unwind=[("blake3.c", "blake3_hasher_update_base", 1, 52)],
+        bounded=["unwind 52 for the shrink loop `while ((subtree_len - 1) & count_so_far)`: subtree_len is a power "
+                 "of two <= input_len <= 2^50 (object-size limit) and the loop stops at 1024 = 2^10 at the latest, "
+                 "i.e. <= 40 halvings; unwinding assertion passes. The outer loop has a loop contract (unbounded)."],
         doc="unbounded input_len (loop contracts): HASHER_WF preserved (stack never exceeds 55 entries), "
             "total bytes grow by exactly input_len, writes only chunk/stack/stack length, nothing for input_len == 0")
     U["blake3_hasher_update"] = _u(
